@@ -368,6 +368,7 @@ func cmdCheck(args []string) int {
 		"SMT solvers z3 4.8.12, z3 5.1.0, cvc5 1.0.3")
 	ev.addAssumption("sequential execution: locks are no-ops and no other goroutine interferes, except in functions marked concurrent")
 	ev.addAssumption("int/int64/uint64 arithmetic is mathematical (no overflow); 8/16/32-bit arithmetic and all narrowing conversions wrap exactly")
+	ev.addAssumption("vacuity is guarded per function (cover/exit) and per call site; per-return reachability (cover-return, thorough tier) is decided for only about a third of the returns - a proved clause may say nothing about a return the model cannot reach (DESIGN B.1: three such holes were found and fixed)")
 	ev.NotCovered = notCoveredClauses[prop]
 	if !*keep {
 		// proved queries were deleted already; failing ones are kept for the replay files
